@@ -891,7 +891,14 @@ def run(ctx: Any, prog: Program) -> None:
                     and ((isinstance(a.value, ast.Call) and dotted(a.value.func) in ('list', 'tuple') and a.value.args and dotted(a.value.args[0]) in val_aliases)
                          or (isinstance(a.value, ast.Subscript) and dotted(a.value.value) in val_aliases and isinstance(a.value.slice, ast.Slice))
                          or (isinstance(a.value, ast.Call) and isinstance(a.value.func, ast.Attribute) and a.value.func.attr == 'copy' and dotted(a.value.func.value) in val_aliases))]
-        if shallow4:
+        # the comprehension written as a loop: `for child in self._value: children.append(child.copy())`
+        loops4 = [l for l in ast.walk(kc) if isinstance(l, ast.For) and dotted(l.iter) in val_aliases and isinstance(l.target, ast.Name) and not l.orelse
+                  and any(isinstance(c, ast.Call) and isinstance(c.func, ast.Attribute) and c.func.attr == 'append' and len(c.args) == 1 and isinstance(c.args[0], ast.Call) and isinstance(c.args[0].func, ast.Attribute)
+                          and c.args[0].func.attr == 'copy' and dotted(c.args[0].func.value) == l.target.id for c in ast.walk(l))
+                  and not any(isinstance(x, (ast.Continue, ast.Break, ast.If)) for b in l.body for x in ast.walk(b))]
+        if len(loops4) == 1 and not shallow4:
+            ctx.check('C09.P4', True, kv, loops4[0], 'every child is copied in a loop', text='deep child copy')
+        elif shallow4:
             ctx.check('C09.P4', False, kv, shallow4[0], f'Keyvalues.copy fills the copy with `{U(shallow4[0].value)[:40]}`: a new list holding the SAME child objects - editing a child of the copy edits the original tree', text='deep child copy')
         else:
             ctx.shape('C09.P4', False, kv, kc, 'Keyvalues.copy: the comprehension that copies the children was not found', text='deep child copy')
